@@ -9,8 +9,8 @@ RULE = (
     "metamorphic pairs of runs over seeded cells (kinds, heavynesses, schemes, PTO 0..3, SV keys, EW box, arbitrary CKM): "
     "(decouple) NC with MZ=MW=1e12 vs EM, |diff| <= 1e-10*scale(F2); (pol) positron with P vs electron with -P, bit-identical; "
     "(cc) antineutrino vs neutrino and e- vs e+ CC: O[p] = +-O'[pbar], minus for F3 (rtol 1e-12), and e+ == neutrino, "
-    "e- == antineutrino bit-identical; (flav) massless schemes NC/EM: rows of active quarks with identical charges coincide "
-    "(d=s=b, u=c) (rtol 1e-12). Distinct = (relation, kind, heavyness, scheme, PTO); non-trivial = the compared tensors are non-zero."
+    "e- == antineutrino bit-identical; (flav) NC/EM, every scheme: rows of light (massless) quarks with identical charges coincide "
+    "(d=s=b, u=c among the nf light flavours) (rtol 1e-12). Distinct = (relation, kind, heavyness, scheme, PTO); non-trivial = the compared tensors are non-zero."
 )
 ASSUMPTIONS = ["Z decoupling is realised by MZ = MW = 1e12 GeV (propagator ratio ~ Q2/MZ^2 <= 1e-19)"]
 RTOL = 1e-12
@@ -35,9 +35,9 @@ def cases(tier, rng):
         if rel == "cc":
             cfg = cards.rand_config(rng, process="CC", ptos=ptos, sv=True)
         elif rel == "flav":
-            cfg = cards.rand_config(rng, process=cards.pick(rng, ["NC", "EM"]), ptos=ptos, sv=True,
-                                    schemes=["ZM-VFNS", "ZM-VFNS", "FFNS", "FFN0"])  # fmt: skip
-            if cfg["theory"]["FNS"] != "ZM-VFNS":
+            # light quarks are massless in every scheme: the symmetry holds among the nf light flavours of massive schemes too
+            cfg = cards.rand_config(rng, process=cards.pick(rng, ["NC", "EM"]), ptos=ptos, sv=True)
+            if cfg["theory"]["FNS"] in ("FFNS", "FFN0") and rng.random() < 0.3:
                 cfg["theory"]["NfFF"] = 6  # all quarks massless
         else:
             cfg = cards.rand_config(rng, process="NC", ptos=ptos, sv=True)
